@@ -12,6 +12,9 @@ NSYNC_CORE = ["internal/common.c", "internal/counter.c", "internal/cv.c", "inter
 HARNESS = {
     # harness: (nsync sources, extra rt sources, extra wraps)
     "h_sem": (["platform/linux/src/nsync_semaphore_futex.c", "platform/posix/src/time_rep.c"], [], []),
+    "h_semm": (["platform/posix/src/nsync_semaphore_mutex.c", "platform/posix/src/time_rep.c"], ["ideal_pthread.c"],
+               ["pthread_mutex_init", "pthread_mutex_lock", "pthread_mutex_unlock", "pthread_cond_init", "pthread_cond_wait",
+                "pthread_cond_timedwait", "pthread_cond_broadcast", "pthread_cond_signal"]),
     "h_dll": (["internal/dll.c"], [], []),
     "h_mu": (NSYNC_CORE + ["platform/linux/src/nsync_semaphore_futex.c", "platform/posix/src/time_rep.c"], [], []),
     "h_mub": (NSYNC_CORE + ["platform/posix/src/time_rep.c"], ["binsem.c"], [], "h_mu"),
